@@ -47,6 +47,76 @@ mod proofs {
     instantiate_pke!(V = V, PKE_LEN = 96, RCPT = rcpt(), ARM = arm, DRAWS = draws);
 
     h!(local_nonce_is_draw_, local_nonce_is_draw::<V>(32, last_draw));
+
+    /// C03 (v4.local): what is fed to each primitive, and how the token is assembled, is exactly the
+    /// spec's Version4 Encrypt: Ek‖n2 = BLAKE2b-56(key; "paseto-encryption-key"‖n),
+    /// Ak = BLAKE2b-32(key; "paseto-auth-key-for-aead"‖n), c = XChaCha20(Ek, n2, counter 0) xor m,
+    /// t = BLAKE2b-32(Ak; PAE("v4.local.", n, c, f, i)), token = n ‖ c ‖ t — for every key, nonce,
+    /// message, footer and assertion.
+    h!(c03_local_transcript, {
+        use vmodel::{query, queries, D_BLAKE2, D_CHACHA};
+        let kb: [u8; 32] = kani::any();
+        let key = forget(<V as HasKey<Local>>::decode(&kb)).unwrap();
+        let n: [u8; 32] = kani::any();
+        let m: [u8; 3] = kani::any();
+        let f: [u8; 2] = kani::any();
+        let i: [u8; 1] = kani::any();
+        let mut payload = alloc::vec::Vec::with_capacity(64);
+        payload.extend_from_slice(&n);
+        payload.extend_from_slice(&m);
+        let q0 = queries();
+        let sealed = forget(<V as SealingVersion<Local>>::dangerous_seal_with_nonce(&key, "", payload, &f, &i)).unwrap();
+        assert!(queries() == q0 + 4, "v4.local encryption makes exactly four primitive calls");
+        let (e0, e1, e2, e3) = (query(q0), query(q0 + 1), query(q0 + 2), query(q0 + 3));
+        // 1. Ek ‖ n2
+        let mut w0 = [0u8; 87];
+        w0[0] = 56;
+        w0[1] = 32;
+        w0[2..34].copy_from_slice(&kb);
+        w0[34..55].copy_from_slice(b"paseto-encryption-key");
+        w0[55..87].copy_from_slice(&n);
+        assert!(e0.dom == D_BLAKE2 && eq(e0.t.bytes(), &w0), "encryption-key derivation differs from the spec");
+        // 2. Ak
+        let mut w1 = [0u8; 90];
+        w1[0] = 32;
+        w1[1] = 32;
+        w1[2..34].copy_from_slice(&kb);
+        w1[34..58].copy_from_slice(b"paseto-auth-key-for-aead");
+        w1[58..90].copy_from_slice(&n);
+        assert!(e1.dom == D_BLAKE2 && eq(e1.t.bytes(), &w1), "auth-key derivation differs from the spec");
+        // 3. keystream: key = Ek (first 32 bytes of output 0), nonce = n2 (next 24), block 0
+        let mut w2 = [0u8; 64];
+        w2[..56].copy_from_slice(&e0.out[..56]);
+        assert!(e2.dom == D_CHACHA && eq(e2.t.bytes(), &w2), "XChaCha20 is not keyed with Ek / n2 at counter 0");
+        let c = [m[0] ^ e2.out[0], m[1] ^ e2.out[1], m[2] ^ e2.out[2]];
+        // 4. tag over PAE(h, n, c, f, i) keyed with Ak
+        let mut w3 = [0u8; 129];
+        w3[0] = 32;
+        w3[1] = 32;
+        w3[2..34].copy_from_slice(&e1.out[..32]);
+        let mut o = 34;
+        let mut put = |bytes: &[u8], w3: &mut [u8; 129], o: &mut usize| {
+            w3[*o..*o + bytes.len()].copy_from_slice(bytes);
+            *o += bytes.len();
+        };
+        put(&5u64.to_le_bytes(), &mut w3, &mut o);
+        put(&9u64.to_le_bytes(), &mut w3, &mut o);
+        put(b"v4.local.", &mut w3, &mut o);
+        put(&32u64.to_le_bytes(), &mut w3, &mut o);
+        put(&n, &mut w3, &mut o);
+        put(&3u64.to_le_bytes(), &mut w3, &mut o);
+        put(&c, &mut w3, &mut o);
+        put(&2u64.to_le_bytes(), &mut w3, &mut o);
+        put(&f, &mut w3, &mut o);
+        put(&1u64.to_le_bytes(), &mut w3, &mut o);
+        put(&i, &mut w3, &mut o);
+        assert!(o == 129);
+        assert!(e3.dom == D_BLAKE2 && eq(e3.t.bytes(), &w3), "the MAC input is not Ak-keyed PAE(h, n, c, f, i)");
+        // token = n ‖ c ‖ t
+        assert!(sealed.len() == 67 && eq(&sealed[..32], &n) && eq(&sealed[32..35], &c) && eq(&sealed[35..], &e3.out[..32]), "token is not n ‖ c ‖ t");
+        kani::cover!(true, "conformance compared");
+        core::mem::forget(sealed);
+    });
     h!(public_rng_fail_closed_, public_rng_fail_closed::<V>(arm, draws));
     h!(pw_rng_fail_closed_at0, pw_rng_fail_closed::<V, 0>(".local-pw.", arm, draws));
     h!(pw_rng_fail_closed_at1, pw_rng_fail_closed::<V, 1>(".local-pw.", arm, draws));
